@@ -171,7 +171,12 @@ type tierPlan struct {
 
 func planFor(p Prop, tier string) tierPlan {
 	if tier == "thorough" {
-		return tierPlan{seeds: 4, cap: 3 * 3600}
+		seeds := 4
+		switch p.ID() {
+		case "C04", "C11", "C09":
+			seeds = 2
+		}
+		return tierPlan{seeds: seeds, cap: 3 * 3600}
 	}
 	return tierPlan{seeds: 1, cap: 1500}
 }
@@ -193,8 +198,8 @@ func cmdCheck(args []string) {
 		plan.seeds = *nseeds
 	}
 	os.MkdirAll(filepath.Join(verifRoot(), ".build"), 0o755)
-	os.MkdirAll(filepath.Join(verifRoot(), "replays"), 0o755)
-	os.MkdirAll(filepath.Join(verifRoot(), "evidence"), 0o755)
+	os.MkdirAll(filepath.Join(outRoot(), "replays"), 0o755)
+	os.MkdirAll(filepath.Join(outRoot(), "evidence"), 0o755)
 	start := time.Now()
 	fmt.Printf("fitsim check property=%s tier=%s VERIF_SEED=%d seeds=%d workers=%d profile=%s\n", p.ID(), *tier, *seed, plan.seeds, *workers, profNote)
 
@@ -206,7 +211,11 @@ func cmdCheck(args []string) {
 	for k := 0; k < plan.seeds; k++ {
 		s := *seed + uint64(k)
 		seeds = append(seeds, s)
-		oc := runBatch(p, s, *tier, *workers, plan.cap)
+		bt := *tier
+		if k > 0 {
+			bt += "+" // later seeds skip the seed-independent enumerated families
+		}
+		oc := runBatch(p, s, bt, *workers, plan.cap)
 		total.merge(oc.stats)
 		if len(total.Samples) < 3 {
 			total.Samples = append(total.Samples, oc.stats.Samples...)
@@ -272,7 +281,7 @@ func cmdCheck(args []string) {
 		min.Repo = repoDescribe()
 		min.Profile = profNote
 		name := fmt.Sprintf("%s-s%d-i%d-%d.json", p.ID(), sc.Seed, sc.Index, i)
-		path := filepath.Join(verifRoot(), "replays", name)
+		path := filepath.Join(outRoot(), "replays", name)
 		b, _ := json.MarshalIndent(min, "", " ")
 		os.WriteFile(path, b, 0o644)
 		fmt.Printf("violation class=%s signature=%q count=%d detail=%s\n", pv.fv.V.Class, pv.fv.V.Signature, pv.count, pv.fv.V.Detail)
